@@ -313,8 +313,13 @@ func c15JSONMultiPath(c *vkit.Ctx, r *rand.Rand, i int) {
 	}
 	text := d.Render(r, false)
 	in := map[string]any{"sub": "json-direct-multi-path", "document": vkit.Clip(text, 3000), "paths": paths, "placeholder": ph}
-	out, errs := match.Any(paths...).Placeholder(ph).JSON([]byte(text))
+	mbuf := []byte(text)
+	out, errs := match.Any(paths...).Placeholder(ph).JSON(mbuf)
 	c.Count("json_multipath_applications", 1)
+	if string(mbuf) != text {
+		c.Violate("caller-bytes-modified", "", fmt.Sprintf("Any(%v).JSON(b) changed b itself", paths), in)
+		return
+	}
 	if len(errs) > 0 {
 		c.Count("json_direct_matcher_reported_error", 1)
 		return
@@ -399,8 +404,13 @@ func c15JSONOverlap(c *vkit.Ctx, r *rand.Rand, i int) {
 	}
 	text := d.Render(r, false)
 	in := map[string]any{"sub": "json-direct-overlapping-paths", "document": vkit.Clip(text, 3000), "paths": paths, "matcher": kind, "placeholder": ph, "shape": shape}
-	out, errs := mk(paths...).JSON([]byte(text))
+	obuf := []byte(text)
+	out, errs := mk(paths...).JSON(obuf)
 	c.Count("json_overlapping_paths_applications", 1)
+	if string(obuf) != text {
+		c.Violate("caller-bytes-modified", "", fmt.Sprintf("%s(%v).JSON(b) changed b itself", kind, paths), in)
+		return
+	}
 	c.Count("overlap:"+shape, 1)
 	seq := []byte(text)
 	var seqErr []string
@@ -586,6 +596,10 @@ func c15JSONDirect(c *vkit.Ctx, r *rand.Rand, i int) {
 	buf := []byte(text)
 	out, errs := m.JSON(buf)
 	c.Count("json_direct_applications", 1)
+	if string(buf) != text {
+		c.Violate("caller-bytes-modified", "", fmt.Sprintf("%s(%q).JSON(b) changed b itself: %s -> %s", spec.Kind, spec.PathS, vkit.Q(vkit.Clip(text, 300)), vkit.Q(vkit.Clip(string(buf), 300))), in)
+		return
+	}
 	if len(errs) > 0 {
 		c.Count("json_direct_matcher_reported_error", 1)
 		c.Note(fmt.Sprintf("matcher error on existing path (allowed): %s %q: %v", spec.Kind, spec.PathS, errs[0].Reason))
